@@ -164,6 +164,14 @@ pub fn run() -> i32 {
             for v in t.viols { r.viol(v); }
         }
     }
+    // (D) `asca seq`: the command line's own staging (each stage reads the previous stage's rendered words) against one library run
+    if crate::cli::cli_available() {
+        let (configs, procs, ok, viols) = super::c20::staged_pipelines_for_c10();
+        r.boxes.push(json!({"box": "(D) `asca seq` pipelines of depth >= 2 (four-tag forests x 24 declaration orders, all tags in one invocation) vs one run of the tag's whole rule history", "configs": configs, "cli_processes": procs, "pipeline_tag_outputs_equal": ok, "failures": viols.len()}));
+        r.guard(ok > 1000, "(D) more than 1000 pipeline outputs compared");
+        r.evaluations += ok + viols.len() as u64;
+        for v in viols { r.viol(v); }
+    } else { r.machinery_errors.push(format!("{} not built", crate::cli::cli())); }
     r.transitions = r.evaluations * 3; r.validated = r.evaluations; r.states_count_override = Some(states_total);
     r.sample(json!({"kind": "staged", "rules": ["* > $ / V_C", "$C > & / _#"], "word": "ˈpa.taˌki"}));
     r.sample(json!({"kind": "regroup", "rules": [rules[3], rules[40]], "groupings": all_groupings(&[rules[3], rules[40]]).iter().map(|g| g.iter().map(|x| x.rule.len()).collect::<Vec<_>>()).collect::<Vec<_>>()}));
